@@ -67,6 +67,17 @@ func Harness_C18_Render() {
 		}
 		if e.readable {
 			verifSetFile("d/"+e.name, e.content)
+		} else if verifChoice("unreadable_kind"+itoaV(k), 2) == 1 {
+			// the entry exists but cannot be read (e.g. it is a directory), as opposed to a missing one
+			dup := false
+			for j := 0; j < k; j++ {
+				if entries[j].name == e.name {
+					dup = true
+				}
+			}
+			if !dup {
+				verifFailRead("d/" + e.name)
+			}
 		}
 	}
 	verifSetFile("d/list.txt", list)
